@@ -4,8 +4,8 @@
 import KiraModel.Exec.SuiteParam
 import KiraModel.Model.StaticSound
 
-namespace K.Exec
-open K K.Proto
+namespace K.Exec.Static
+open K K.Proto K.Exec
 
 /-! ### shared parsing / printing -/
 
@@ -183,4 +183,4 @@ def staticStep (st : StaticSuiteState) (tok : List String) : Option (StaticSuite
       | ["seekto", x] => do let x ← f64? x; cmd (.seekTo x)
       | _ => none
 
-end K.Exec
+end K.Exec.Static
